@@ -34,7 +34,7 @@ use ::tokio::sync::mpsc::UnboundedSender;
 use ::tokio::time::{sleep};
 
 #[cfg(feature="tokio-websockets")]
-use stream_ws::{tungstenite::WsMessageHandler, WsMessageHandle, WsByteStream};
+use stream_ws::{WsErrorKind, WsMessageHandle, WsMessageKind, WsByteStream};
 #[cfg(feature="tokio-websockets")]
 use tokio_tungstenite::{client_async, WebSocketStream};
 #[cfg(feature="tokio-websockets")]
@@ -701,6 +701,36 @@ fn make_websocket_client_tokio(tls_impl: TlsConfiguration, endpoint: String, por
         #[cfg(feature = "tokio-native-tls")]
         TlsConfiguration::Nativetls => { make_websocket_client_native_tls(endpoint, port, tls_options, client_options, connect_options, http_proxy_options, ws_options, tokio_options) }
         _ => { panic!("Illegal state"); }
+    }
+}
+
+/// Classifies websocket messages for the byte-stream adapter.  A binary message without payload carries no bytes of the
+/// MQTT stream; handing it to the adapter as data would surface as a zero-byte read, which means end-of-stream.
+#[cfg(feature="tokio-websockets")]
+pub(crate) struct WsMessageHandler;
+
+#[cfg(feature="tokio-websockets")]
+impl WsMessageHandle<Message, tungstenite::Error> for WsMessageHandler {
+    fn message_into_kind(msg: Message) -> WsMessageKind {
+        match msg {
+            Message::Binary(payload) if payload.is_empty() => WsMessageKind::Other,
+            Message::Binary(payload) => WsMessageKind::Bytes(payload),
+            Message::Close(_) => WsMessageKind::Close,
+            _ => WsMessageKind::Other,
+        }
+    }
+
+    fn error_into_kind(e: tungstenite::Error) -> WsErrorKind {
+        match e {
+            tungstenite::Error::ConnectionClosed => WsErrorKind::Closed,
+            tungstenite::Error::AlreadyClosed => WsErrorKind::AlreadyClosed,
+            tungstenite::Error::Io(e) => WsErrorKind::Io(e),
+            e => WsErrorKind::Other(Box::new(e)),
+        }
+    }
+
+    fn message_from_bytes<T: Into<Vec<u8>>>(bytes: T) -> Message {
+        Message::Binary(bytes.into())
     }
 }
 
